@@ -719,8 +719,11 @@ def gen(seed, tier, prop="C14"):
         if layout == "cip":
             where = "entry"
             if mode == "unconnected_send":
-                mode = "unconnected"
-                route = r.choice((True, False))
+                if r.random() < 0.5:
+                    route = True             # Unconnected Send along the driver's own - empty - route: still a whole wrapper
+                else:
+                    mode = "unconnected"
+                    route = r.choice((True, False))
         key = (cls_n, inst_n, repr(where))
         world["objects"].append({"where": where, "cls": cls_n, "inst": inst_n})
         dlen = r.choice((0, 0, 1, 2, 3, 4, 7, 8, 33, 100, 200, 400))
